@@ -79,7 +79,8 @@ TreesOK == st.ph = "done" => ExpressibleIffPrintable(st.v) /\ AssignableIffBrack
 (***************************************************************************)
 CONSTANTS TypeAttrs, RelAttrs, CondAttrs      \* sets of indices into AttrPool
 AttrPool == << <<"", "">>, <<"m1", "a.fga">>, <<"m2", "a.fga">>, <<"m1", "b c.fga">>, <<"m2", "">>, <<"", "d#e.fga">>, <<"m1", "z, file: q.fga">>,
-              <<"m2", "dir\ncore.fga">> >>      \* a file name with a line break (reachable through JSON / protobuf only)
+              <<"m2", "dir\ncore.fga">>,
+              <<"m1 #x", "wiki #2.fga">> >>      \* a file name with a line break (reachable through JSON / protobuf only)
 At(x, i) == [x EXCEPT !.module = AttrPool[i][1], !.file = AttrPool[i][2]]
 AttrModel(c) ==    \* c = [t1, t2, r1, r2, r3, c1, c2] indices into AttrPool
   [schema |-> "1.2",
